@@ -372,8 +372,10 @@ func run(c *fw.Ctx, idx int) {
 	if small {
 		tune = sim.RaftTune{SnapshotThreshold: uint64(r.Range(4, 10)), TrailingLogs: uint64(r.Range(3, 8)), SnapshotInterval: 300 * time.Millisecond}
 	}
+	// half of the clusters make one try per operation (commit_retries = 0)
+	tune.NoCommitRetries = (idx/6)%2 == 0
 	base := r.Intn(5) * 4
-	c.Journal("case %d peers=%d fault=%s small-snapshots=%v", idx, n, fault, small)
+	c.Journal("case %d peers=%d fault=%s small-snapshots=%v one-try=%v", idx, n, fault, small, tune.NoCommitRetries)
 	cl, err := newCluster(ctx, dir, base, n, tune)
 	if err != nil {
 		c.Inconclusive("cluster start: " + err.Error())
@@ -385,7 +387,11 @@ func run(c *fw.Ctx, idx int) {
 	var hmu sync.Mutex
 	var hist []opRec
 	acked := map[string]bool{} // vseq of acknowledged pins
+	var submitT func(proc, mi int, kind string, ci int, rr *fw.Rand, limit time.Duration)
 	submit := func(proc, mi int, kind string, ci int, rr *fw.Rand) {
+		submitT(proc, mi, kind, ci, rr, 20*time.Second)
+	}
+	submitT = func(proc, mi int, kind string, ci int, rr *fw.Rand, limit time.Duration) {
 		s := int(atomic.AddInt64(&seq, 1))
 		vseq := fmt.Sprintf("w%d", s)
 		m := cl.members[mi]
@@ -408,7 +414,7 @@ func run(c *fw.Ctx, idx int) {
 				}
 			}
 		}
-		cctx, cancel := context.WithTimeout(ctx, 20*time.Second)
+		cctx, cancel := context.WithTimeout(ctx, limit)
 		method := "LogPin"
 		if kind == "unpin" {
 			method = "LogUnpin"
@@ -690,6 +696,15 @@ func run(c *fw.Ctx, idx int) {
 			cl.members[f].peer.Gater.Block(cl.ids[j])
 		}
 		rr := fw.NewRand(c.Seed, "C01/partition-ops", idx)
+		// a write submitted at the member that was just cut off (it still names the old
+		// leader for a heartbeat or so): it cannot be committed; if it is acknowledged all
+		// the same, it has to be there after the heal like any acknowledged write
+		cutDone := make(chan struct{})
+		go func() {
+			defer close(cutDone)
+			submitT(61, f, "pin", nCids, fw.NewRand(c.Seed, "C01/cut-off-op", idx), 3*time.Second)
+		}()
+		defer func() { <-cutDone }()
 		// unpin what the follower holds, then pin many others: more than trailing_logs entries
 		var held []int
 		for ci := 0; ci < nCids; ci++ {
